@@ -34,7 +34,15 @@ def _open_vdi(vf, parent):
     from dissect.hypervisor.disk.vdi import VDI
 
     vf.seek(0)
+    _OPENS[0] += 1
+    if parent and _OPENS[0] % 2:
+        v = VDI(vf)          # the parent is a public attribute: attached after construction it counts just the same
+        v.parent = parent()
+        return v
     return VDI(vf, parent=parent() if parent else None)
+
+
+_OPENS = [0]
 
 
 def build(img, prof, P=None, size_bytes=None):
